@@ -9,7 +9,7 @@ from c10 import chunks
 LEVEL = "exploration"
 
 # macro sets used here: 0 (default) and 1 (two-segment module, name `event`)
-SETS = [0, 1, 3, 4, 5]
+SETS = [0, 1, 3, 4, 5, 6]
 
 
 def items_for(ms):
@@ -21,7 +21,7 @@ def items_for(ms):
     decoys = [
         "// " + S + "\n", "/* " + S + " */", "/*\n" + S + "\n*/", "/// " + S + "\n", "//! " + S + "\n", "/** " + S + " */",
         "/* " + S + " **/", "/**** " + S + " ****/", "/* a /* b **/ " + S + " */",
-        "/* " + S + " // see http://x.y/z */", "/* // */", "// /* " + S + "\n", "/* /* inner */ " + S + " */",
+        "/* " + S + " // see http://x.y/z */", "// progress:\r " + S + "\n", "// " + S + "\r\n", "/* // */", "// /* " + S + "\n", "/* /* inner */ " + S + " */",
         'debug!("x");', 'println!("x");',
         name + 'x!("x");', "x" + name + '!("x");', "my_" + name + '!("x");', name + '_!("x");',
         "foo::" + name + '!("x");', mod + "::sub::" + name + '!("x");', "x" + mod + "::" + name + '!("x");',
@@ -70,6 +70,8 @@ def build(spec):
             f.raw("\n")
         elif tail == 2:
             f.raw("\n" + eof_comment)          # comment on the last line, no trailing newline
+        elif tail == 3:
+            f.raw("\r\n" + eof_comment + "\r")   # CRLF file cut after the carriage return of its last line, which is a comment
         code, exp = f.build()
         yield gen.cfg_index(ms, style), code, exp, (ms, style, idxs, joiner, tail)
 
@@ -78,9 +80,9 @@ def space(maxlen):
     for ms in SETS:
         n = len(items_for(ms)[0])
         for style in (False, True):
-            for L in range(1, (maxlen if ms == 0 else min(maxlen, 3)) + 1):
+            for L in range(1, (maxlen if ms == 0 else maxlen - 1) + 1):
                 for idxs in itertools.product(range(n), repeat=L):
-                    for j in range(len(JOINERS)):
+                    for j in range(len(JOINERS) if L < 4 else 1):
                         if L == 1 and j > 0:
                             continue
                         # a line comment swallows what follows on its line: with joiner " " or "" the next item would be
@@ -88,7 +90,7 @@ def space(maxlen):
                         # items that end their own line or are not line comments
                         if j > 0 and any(items_for(ms)[0][i][0] is not None and items_for(ms)[0][i][0].startswith("//") and not items_for(ms)[0][i][0].endswith("\n") for i in idxs[:-1]):
                             continue
-                        for tail in (0, 1, 2):
+                        for tail in ((0, 1, 2, 3) if L < 4 else (0, 3)):
                             yield (ms, style, idxs, j, tail)
 
 
@@ -107,7 +109,7 @@ def classify(f):
         else:
             kinds.append("macro-decoy")
     tag = "+".join(sorted(set(kinds)))
-    if tail == 2 and f["class"] == "count" and "got %d" % (sum(1 for k in kinds if k == "real") + 1) in f["detail"]:
+    if tail in (2, 3) and f["class"] == "count" and "got %d" % (sum(1 for k in kinds if k == "real") + 1) in f["detail"]:
         tag = "eof-line-comment-parsed"
     return "%s:%s:%s" % ("structured" if style else "unstructured", f["class"], tag)
 
@@ -125,8 +127,9 @@ def run(tier, v):
     pool.close()
     v.count(agg["n"])
     v.coverage["distinct_nontrivial"] += agg["distinct"]
-    v.subspace("all sequences of 1..%d items (other macro sets than the default: 1..3) from 30 decoys + 2 real statements x joiner {newline, blank, nothing} x tail {none, newline, "
-               "line comment at EOF without newline} x macro set {default, two-segment module, non-ASCII module and name, three modules with different names (+ 6 cross-pair decoys)} x style" % maxlen, agg["n"], exhaustive=True,
+    v.subspace("all sequences of 1..%d items (other macro sets than the default: one shorter; length 4: newline joiner, two tails) from %d decoys + 2 real statements x "
+               "joiner {newline, blank, nothing} x tail {none, newline, line comment at EOF without newline, the same in a CRLF file cut after the CR} x 6 macro sets (default, "
+               "two-segment module, non-ASCII, three modules with cross-pair decoys, three-segment module, names starting with `_`) x style" % (maxlen, len(items_for(0)[0]) - 2), agg["n"], exhaustive=True,
                sequences_containing_real_statements=agg["nonvacuous"])
     for s in agg["samples"]:
         v.sample({"file": s[0], "expected_entries": s[1]})
